@@ -618,11 +618,11 @@ class C20(CompSpec):
 
 # slices added during validation (DESIGN 10.5): appended to the rules so that the evidence files describe them
 _MORE = {
-    C07: "; the simulated submissions include parameters given as submit-jobs options and resubmissions with changed group parameters (resubmit-jobs -s), judged by the new groups",
+    C07: "; the simulated submissions include parameters given as submit-jobs options and resubmissions with changed group parameters (resubmit-jobs -s), judged by the new groups; walltime spellings judged by what the scheduler understands",
     C08: "; slices: a slow lock holder (a stall beyond the 300-s lock timeout inside a results-lock hold: waiting appends / collections must fail loudly, every append that returned is in the consolidated file exactly once), output directories with glob metacharacters, a resubmission in the middle (some / all / none of the collected rows pruned by clear_results_for_resubmission, then a second generation of writers and collectors: exactly-once over the second phase, kept rows unchanged)",
-    C10: "; simulated submissions with refused resubmit-jobs / cancel-jobs on the holder's host and with submit-jobs started twice at once for one new output directory; a slice of histories with a writer killed in the middle of a write",
-    C19: "; a quarter of the scenarios use unnamed jobs (JADE names them str(job_id))",
-    C20: "; in half of the simulated submissions the jobs log events themselves (own events.log under job-outputs, kept open while they run): what they logged is the ground truth",
+    C10: "; simulated submissions with refused resubmit-jobs / cancel-jobs on the holder's host and with submit-jobs started twice at once for one new output directory; a slice of histories with a writer killed in the middle of a write; resubmit-jobs in the completion window; a holder stalled beyond the lock timeout inside the cluster lock; monitor for lock markers of live holders removed by others",
+    C19: "; a quarter of the scenarios use unnamed jobs (JADE names them str(job_id)); 30% of the runs started from inside another JADE job (inherited JADE_* variables); jobs killed by signals",
+    C20: "; in half of the simulated submissions the jobs log events themselves (own events.log under job-outputs, kept open while they run): what they logged is the ground truth; a quarter also logs resource samples (parquet summary), generates reports and is resubmitted",
 }
 for _c, _t in _MORE.items():
     _c.rule = _c.rule + _t
